@@ -8,11 +8,14 @@
    last top-level branch, possibly with refinements of its own, with conclusions of its own ([C08_rules_next],
    [C08_rules_next2], up to permutation).  Other programs with next_rule are compared with the faithful model and the Spec; the class
    [later_ref_next] (reading not settled by the property text) with the model only.  All former defects (C08-a..h) are
-   regression theorems. *)
+   regression theorems.
+   Two variables (Eql/RuleSpec2.v [rdr2], Eql/RuleEval2.v [run2]): [C08_rules2] -- next_rule-free programs over a
+   connection c and a body b joined by one refinement `b == c.parent`, conclusions over c, b or both; the inferred
+   instances agree with the Spec as a SET (bodies shared by several connections are inferred once). *)
 From Coq Require Import List ZArith Bool Arith Permutation.
 From Krrood Require Import Eql.RuleSpec Eql.RuleEval Eql.RuleBuild Eql.RulePure Eql.RuleEvalProofs Eql.RuleSpecProofs Eql.RuleProofs
   Eql.RuleNextProofs Eql.RuleNextSpecProofs Eql.RuleBuildProofs Eql.RuleBuildAll Eql.RuleNextTreeProofs
-  Eql.RuleNextTreeSpecProofs.
+  Eql.RuleNextTreeSpecProofs Eql.RuleSpec2 Eql.RuleEval2 Eql.RuleEval2Proofs Eql.RuleEval2RootProofs Eql.RuleEval2SpecProofs.
 Import ListNotations.
 
 (* construction, for EVERY rule program of the grammar (any nesting, any number of siblings, any conditions and
@@ -43,6 +46,25 @@ Proof. exact rules_next_ok. Qed.
 Theorem C08_rules_next2 : forall prog, Fb_next2 prog = true -> forall W,
   exists rows xs, model prog W = Some rows /\ singles rows = Some xs /\ Permutation xs (rdr prog W).
 Proof. exact rules_next2_ok. Qed.
+
+(* TWO variables: c ranges over connections (k, parent), b over bodies (a).  Fragment [F2b]: no next_rule; one refinement J
+   starts with the join `b == c.parent` and carries only refinements in its own block; outside J conditions read c and
+   conclusions name c; at and below J conditions read c.k and b.a freely, conclusions name c, b or both (refinement in
+   refinement, alternatives below, shared bodies, any domain contents with parents in range).  The run of the built
+   query -- join leaf yielding one row per body, ExceptIf/ElseIf over those rows, coverage of the root selector keyed by
+   the bindings of the variables the selected conclusions name -- infers exactly the SET of instances of the Spec
+   (ripple-down-rules over the elements (c.k, c.parent.a), an instance naming c, b or both as its conclusion says). *)
+Theorem C08_rules2 : forall selof Cs Bs prog, F2b selof prog = true -> inrangeb Cs Bs = true ->
+  exists rows, model2 selof prog Cs Bs = Some rows /\
+               forall x, In x (insts selof rows) <-> In x (rdr2 selof prog Cs Bs).
+Proof. exact rules2_ok. Qed.
+
+(* evaluation on two-variable trees: every tree of the shape class [okb] (the join below a chain of ExceptIf-left inside a
+   right operand; no Next), distinct nodes, parents in range: the instances of the run are those of the pure reading *)
+Theorem C08_ruleeval2_ok : forall selof Cs Bs t, okb t = true -> nextfree t = true -> NoDup (ids t) -> inrange Cs Bs ->
+  forall x, In x (insts selof (run2 selof Cs Bs t))
+            <-> In x (insts selof (flat_map (fun ic => rows2 Bs t (cbind ic)) (enum Cs))).
+Proof. exact run2_okb. Qed.
 
 (* evaluation of Next(l, r) at the root, for all Next-free l and r with distinct nodes and every domain: first-pass rows
    (l's conclusion, else r's) followed by second-pass rows (r's conclusion where it is not covered yet) *)
@@ -120,6 +142,16 @@ Theorem C08_unsettled_reading :
   In (3, 1) (rdr w_unsettled W8) /\ ~ In (3, 1) (model_tags w_unsettled W8) /\ In (3, 2) (model_tags w_unsettled W8).
 Proof. exact unsettled_reading. Qed.
 
+(* the two-variable fragment is inhabited, and the set comparison is essential: two connections share the body whose
+   instance the joining refinement infers -- the Spec lists it twice, the run infers it once *)
+Example C08_rules2_nonvacuous :
+  F2b w2_sel w2_prog = true /\ inrangeb w2_Cs w2_Bs = true /\
+  rdr2 w2_sel w2_prog w2_Cs w2_Bs
+  = [(1, None, Some 0); (2, Some 1, Some 0); (0, Some 2, None); (1, None, Some 0)] /\
+  option_map (insts w2_sel) (model2 w2_sel w2_prog w2_Cs w2_Bs)
+  = Some [(1, None, Some 0); (2, Some 1, Some 0); (0, Some 2, None)].
+Proof. exact rules2_nonvacuous. Qed.
+
 Example C08_nonvacuous2 :
   Fb_next2 w_next_ref = true /\ Fb_next w_next_ref = false /\
   rdr w_next_ref W8 = [(0, 0); (1, 1); (0, 2); (2, 2); (0, 3); (3, 3); (2, 4); (2, 5); (2, 6); (2, 7)].
@@ -136,6 +168,8 @@ Print Assumptions C08_build_all.
 Print Assumptions C08_rules.
 Print Assumptions C08_rules_next.
 Print Assumptions C08_rules_next2.
+Print Assumptions C08_rules2.
+Print Assumptions C08_ruleeval2_ok.
 Print Assumptions C08_ruleeval_root_next.
 Print Assumptions C08_ruleeval_ok.
 Print Assumptions C08_tree_is_rdr.
